@@ -79,10 +79,11 @@ func init() {
 				return 0, false, false
 			}
 			const (
-				bSwap = 1
-				bInc  = 2
-				bStop = 4
-				bOld  = 8
+				bSwap  = 1
+				bInc   = 2
+				bStop  = 4
+				bOld   = 8
+				bGuard = 16 // the flush guard held when the first of the paired updates ran
 			)
 			nSwap := 0
 			spec.Step = func(c *pathsim.Ctx, s pathsim.State, ev *pathsim.Event) []pathsim.State {
@@ -95,7 +96,7 @@ func init() {
 						}
 						if prog.SelField(c.Info, ev.Lhs[0]) == batch {
 							nSwap++
-							ok := s.V[0] == pathsim.False && (s.V[1] == pathsim.True || s.V[2] == pathsim.True)
+							ok := (s.V[0] == pathsim.False && (s.V[1] == pathsim.True || s.V[2] == pathsim.True)) || s.A&bGuard != 0
 							if !ok {
 								c.Violate(ev.Pos, "[swap-unguarded] the batch is swapped out without having established: non-empty && (token == CurrentBatch || token == batchToken) — a stale time-out token would flush a newer batch, or an empty flush would advance the generation")
 							}
@@ -106,6 +107,11 @@ func init() {
 							return []pathsim.State{s}
 						}
 						if prog.SelField(c.Info, ev.Lhs[0]) == tok {
+							// the generation may be advanced before the swap (the statements are independent and
+							// both under the lock): remember that the guard held at this point
+							if s.V[0] == pathsim.False && (s.V[1] == pathsim.True || s.V[2] == pathsim.True) {
+								s.A |= bGuard
+							}
 							// must be +1
 							good := false
 							if b, ok := ast.Unparen(ev.Rhs[0]).(*ast.BinaryExpr); ok && b.Op == token.ADD && prog.SelField(c.Info, b.X) == tok {
@@ -121,6 +127,9 @@ func init() {
 						}
 					}
 					if ev.Tok == token.INC && len(ev.Lhs) == 1 && prog.SelField(c.Info, ev.Lhs[0]) == tok {
+						if s.V[0] == pathsim.False && (s.V[1] == pathsim.True || s.V[2] == pathsim.True) {
+							s.A |= bGuard
+						}
 						s.A |= bInc
 						return []pathsim.State{s}
 					}
@@ -509,14 +518,40 @@ func init() {
 								if prog.IdentObj(fi, l) != obj {
 									continue
 								}
-								var rhs ast.Expr
-								if len(as.Lhs) == len(as.Rhs) {
-									rhs = as.Rhs[i]
-								} else if len(as.Rhs) == 1 {
-									rhs = as.Rhs[0]
-								}
 								n++
-								if rhs == nil || !allDefsCall(rhs, fn, depth+1) {
+								if len(as.Lhs) == len(as.Rhs) {
+									if !allDefsCall(as.Rhs[i], fn, depth+1) {
+										okAll = false
+									}
+									continue
+								}
+								// `a, b, c := func() (...) {...}()`: the i-th result of every return
+								good := false
+								if len(as.Rhs) == 1 && depth < 2 {
+									if c, ok := ast.Unparen(as.Rhs[0]).(*ast.CallExpr); ok {
+										if lit, ok := ast.Unparen(c.Fun).(*ast.FuncLit); ok {
+											nRet, all := 0, true
+											ast.Inspect(lit.Body, func(q ast.Node) bool {
+												if inner, ok := q.(*ast.FuncLit); ok && inner != lit {
+													return false
+												}
+												if ret, ok := q.(*ast.ReturnStmt); ok && len(ret.Results) == len(as.Lhs) {
+													// a return that hands out the zero value (nil / 0) on the "nothing to do" path is fine
+													if tv, ok := fi.Types[ret.Results[i]]; ok && (tv.IsNil() || (tv.Value != nil && tv.Value.String() == "0")) {
+														return true
+													}
+													nRet++
+													if !allDefsCall(ret.Results[i], fn, depth+1) {
+														all = false
+													}
+												}
+												return true
+											})
+											good = nRet > 0 && all
+										}
+									}
+								}
+								if !good {
 									okAll = false
 								}
 							}
